@@ -11,4 +11,5 @@ Separate Extraction
   SemDecide.prog_reach SemDecide.prog_can_fall_off
   AnalyzerG.analyzeG Analyzer.any_stops
   Oracle.sem_fallthrough_cases Syntax.no_fn_stmtb Analyzer.current
-  Oracle.c10_violations Oracle.c11_getter_violation Oracle.c11_case_violations.
+  Oracle.c10_violations Oracle.c11_getter_violation Oracle.c11_case_violations
+  Analyzer.getter_return_panics_on Oracle.c11_getter_violations_all Oracle.sem_falling_getters.
